@@ -490,11 +490,27 @@ func cmdCheck(args []string) int {
 			}
 		}
 	}
+	// A function whose contract no longer fits it (a loop / assert clause mentions something
+	// that is gone: the function was restructured) was verified without those clauses. What then
+	// fails to discharge is undecided, not a violation -- the proof attempt was handicapped by
+	// the contract, not by the code -- unless a replay driver demonstrates a failing input.
+	mismatched := map[string]string{}
+	for _, r := range results {
+		if r.Mismatch != "" {
+			mismatched[r.Name] = r.Mismatch
+		}
+	}
+	undecidedUnits := map[string]int{}
 	for _, o := range append(append([]*Obl{}, rep.Refuted...), rep.Regressed...) {
 		path := rep.writeReplay(o)
 		tail := ""
-		if !replayOnRealCode(rep, o, path) {
+		reproduced := replayOnRealCode(rep, o, path)
+		if !reproduced {
 			tail = " no-failing-input-found"
+		}
+		if _, mm := mismatched[o.Unit]; mm && !reproduced {
+			undecidedUnits[o.Unit]++
+			continue
 		}
 		fmt.Printf("VIOLATION property=%s replay=%s obligation=%s status=%s%s\n", *prop, path, o.Name, o.Status, tail)
 		exit = 1
@@ -502,6 +518,12 @@ func cmdCheck(args []string) int {
 	for _, r := range results {
 		if r.Mismatch != "" {
 			fmt.Printf("NOTE property=%s function %s was restructured: the loop/assert clauses of its contract no longer apply (%s); it was verified without them\n", *prop, r.Name, truncate(r.Mismatch, 200))
+			if n := undecidedUnits[r.Name]; n > 0 {
+				fmt.Printf("UNDECIDED property=%s reason=contract of %s no longer fits the function; %d of its obligations that used to be discharged are not decided (update the contract)\n", *prop, r.Name, n)
+				if exit == 0 {
+					exit = 2
+				}
+			}
 		}
 	}
 	for _, n := range rep.VacuityFailed {
